@@ -697,3 +697,280 @@ Proof.
   destruct (scan_loop_good so (S (length fmt)) fmt data ps0 ltac:(lia)) as (r & Hr & Hf).
   rewrite Hr in H. inversion H; subst. eapply Hf; eauto. apply fir_ps0.
 Qed.
+
+(* ------------------------------------------------------------------ *)
+(* FormatOffset followed by ParseOffset                                *)
+
+Lemma consumed2_cons a b r : consumed2 (a :: b :: r) r = true.
+Proof. unfold consumed2. cbn [length]. apply Nat.eqb_eq. lia. Qed.
+
+Lemma pp_parse_none kmin k w lo hi : kmin < 0 -> no_digit_head' k -> 0 <= lo ->
+  parse_int kmin k w lo hi = None.
+Proof.
+  intros Hk Hkk Hlo. rewrite parse_int_unf. destruct k as [|c r]; [reflexivity|].
+  destruct (c =? 45) eqn:E45.
+  - destruct ((w <=? 0) || negb (w - 1 =? 0)); [|reflexivity].
+    destruct (parse_int_loop kmin r _ 0 0) as [[[value rest] n] er] eqn:EL.
+    destruct n as [|n]; [reflexivity|]. destruct er; [reflexivity|].
+    apply pil_sound in EL; [|lia|lia]. destruct EL as (ds & _ & _ & _ & _ & Hr & _).
+    cbn [Nat.eqb negb andb orb]. destruct (value =? 0) eqn:E0; [reflexivity|]. cbn [negb].
+    replace ((lo <=? value) && (value <=? hi)) with false by lia. reflexivity.
+  - cbv beta iota zeta. rewrite pil_cons. cbn in Hkk. rewrite Hkk. reflexivity.
+Qed.
+
+Lemma pp_OK_inj {A} (a b : A) : OK a = OK b -> a = b.
+Proof. congruence. Qed.
+
+Definition pp_d2 (v : Z) : list Z := [48 + v / 10; 48 + v mod 10].
+
+(* the common part of FormatOffset *)
+Lemma pp_format_offset off mode : -86400 < off < 86400 ->
+  format_offset off mode =
+  let a := Z.abs off in
+  let seconds := a mod 60 in
+  let minutes := (a / 60) mod 60 in
+  let hours := a / 60 / 60 in
+  let sign0 := if off <? 0 then 45 else 43 in
+  let sep := nthZ mode 0 in
+  let ext := negb (sep =? 0) && (nthZ mode 1 =? 42) in
+  let ccc := ext && (nthZ mode 2 =? 58) in
+  let with_sec := ext && (negb ccc || negb (seconds =? 0)) in
+  let sign := if with_sec then sign0
+              else if (hours =? 0) && (minutes =? 0) then 43 else sign0 in
+  let tail_sec := if with_sec then sep :: pp_d2 seconds else [] in
+  let tail_min := if negb ccc || negb (minutes =? 0) || negb (seconds =? 0)
+                  then (if negb (sep =? 0) then sep :: pp_d2 minutes else pp_d2 minutes) else [] in
+  fits (sign :: pp_d2 hours ++ tail_min ++ tail_sec).
+Proof.
+  intros H. unfold format_offset.
+  assert (E : (if off <? 0 then (do o <- neg32 off ;; OK (o, 45)) else OK (off, 43)) =
+              OK (Z.abs off, if off <? 0 then 45 else 43)).
+  { destruct (off <? 0) eqn:E.
+    - unfold neg32. rewrite chk32_in by (unfold int32, min32, max32; lia). cbn [bind].
+      replace (- off) with (Z.abs off) by lia. reflexivity.
+    - replace (Z.abs off) with off by lia. reflexivity. }
+  rewrite E. cbn [bind]. clear E.
+  assert (Ha : 0 <= Z.abs off < 86400) by lia. set (a := Z.abs off) in *. clearbody a.
+  replace (Z.rem a 60) with (a mod 60) by lia.
+  replace (Z.quot a 60) with (a / 60) by lia.
+  replace (Z.rem (a / 60) 60) with ((a / 60) mod 60) by lia.
+  replace (Z.quot (a / 60) 60) with (a / 60 / 60) by lia.
+  rewrite !pp_format02d by lia. cbn [bind]. reflexivity.
+Qed.
+
+Lemma hms_sum a : 0 <= a -> (a / 60 / 60 * 60 + (a / 60) mod 60) * 60 + a mod 60 = a.
+Proof. intros. lia. Qed.
+
+Lemma hms_bounds a : 0 <= a < 86400 -> 0 <= a / 60 / 60 <= 23 /\ 0 <= (a / 60) mod 60 <= 59 /\ 0 <= a mod 60 <= 59.
+Proof. intros. lia. Qed.
+
+Theorem parseoffset_formatoffset_full_lemma : forall off k bs, -86400 < off < 86400 -> no_offset_cont' 58 k ->
+  format_offset off [58; 42] = OK bs -> fmt_parse_offset (bs ++ k) 58 = Some (off, k).
+Proof.
+  intros off k bs Ho _ H. rewrite pp_format_offset in H by lia.
+  assert (Ha : 0 <= Z.abs off < 86400) by lia.
+  assert (Hoff : off = if off <? 0 then - Z.abs off else Z.abs off) by (destruct (off <? 0) eqn:E; lia).
+  set (a := Z.abs off) in *. clearbody a.
+  destruct (hms_bounds a Ha) as (Hh & Hm & Hs). pose proof (hms_sum a ltac:(lia)) as Hsum.
+  cbv zeta in H. cbn [nthZ nth] in H.
+  change (negb (58 =? 0) && (42 =? 42)) with true in H. cbn [andb orb negb] in H.
+  change (0 =? 58) with false in H. cbn [andb orb negb] in H.
+  change (negb (58 =? 0)) with true in H. cbv iota in H.
+  set (hh := a / 60 / 60) in *. set (mm := (a / 60) mod 60) in *. set (ss := a mod 60) in *.
+  clearbody hh mm ss. unfold fits, pp_d2 in H. cbn [app length] in H.
+  change (Z.of_nat 9 <=? scratch_size) with true in H. cbv iota in H. apply pp_OK_inj in H; subst bs.
+  rewrite <- !app_comm_cons, app_nil_l. unfold fmt_parse_offset.
+  assert (Es : ((if off <? 0 then 45 else 43) =? 43) || ((if off <? 0 then 45 else 43) =? 45) = true)
+    by (destruct (off <? 0); reflexivity).
+  rewrite Es. unfold parse_int32.
+  change (rng src_parse_off_hh 0) with 0. change (rng src_parse_off_hh 1) with 23.
+  change (rng src_parse_off_mm 0) with 0. change (rng src_parse_off_mm 1) with 59.
+  rewrite pp_parse_fmt02 by (unfold min32; lia). rewrite consumed2_cons.
+  change (negb (58 =? 0) && (58 =? 58)) with true. cbv iota.
+  rewrite pp_parse_fmt02 by (unfold min32; lia). rewrite consumed2_cons.
+  change (negb (58 =? 0) && (58 =? 58)) with true. cbv iota.
+  rewrite pp_parse_fmt02 by (unfold min32; lia). rewrite consumed2_cons.
+  f_equal. f_equal. rewrite Hsum. destruct (off <? 0); cbn [Z.eqb Pos.eqb]; lia.
+Qed.
+
+Theorem parseoffset_formatoffset_minutes_lemma : forall off k bs mode sep, -86400 < off < 86400 ->
+  (mode = [] /\ sep = 0) \/ (mode = [58] /\ sep = 58) -> no_offset_cont' sep k ->
+  format_offset off mode = OK bs ->
+  exists off', fmt_parse_offset (bs ++ k) sep = Some (off', k) /\
+               off' = Z.quot off 60 * 60 /\ (off' = off <-> Z.rem off 60 = 0).
+Proof.
+  intros off k bs mode sep Ho Hmode Hk H. rewrite pp_format_offset in H by lia.
+  exists (Z.quot off 60 * 60). split; [|split; [reflexivity|lia]].
+  assert (Ha : 0 <= Z.abs off < 86400) by lia.
+  assert (Hq : Z.quot off 60 * 60 = if off <? 0 then - (Z.abs off / 60 * 60) else Z.abs off / 60 * 60)
+    by (destruct (off <? 0) eqn:E; lia).
+  rewrite Hq. clear Hq.
+  set (a := Z.abs off) in *. clearbody a.
+  destruct (hms_bounds a Ha) as (Hh & Hm & Hs).
+  assert (Hsum : (a / 60 / 60 * 60 + (a / 60) mod 60) * 60 + 0 = a / 60 * 60) by lia.
+  assert (Hz : (a / 60 / 60 =? 0) && ((a / 60) mod 60 =? 0) = true -> a / 60 * 60 = 0) by lia.
+  cbv zeta in H.
+  set (hh := a / 60 / 60) in *. set (mm := (a / 60) mod 60) in *. set (ss := a mod 60) in *.
+  set (q := a / 60 * 60) in *.
+  clearbody hh mm ss q.
+  assert (Hnone : forall bp', bp' = k -> parse_int min32 bp' 2 0 59 = None).
+  { intros bp' ->. apply pp_parse_none; [reflexivity| |lia].
+    destruct k; cbn in *; tauto. }
+  set (sg := if (hh =? 0) && (mm =? 0) then 43 else if off <? 0 then 45 else 43) in *.
+  assert (Es : (sg =? 43) || (sg =? 45) = true)
+    by (subst sg; destruct ((hh =? 0) && (mm =? 0)); [|destruct (off <? 0)]; reflexivity).
+  assert (Eres : (if sg =? 45 then - q else q) = if off <? 0 then - q else q).
+  { subst sg. destruct ((hh =? 0) && (mm =? 0)) eqn:E0.
+    - rewrite (Hz eq_refl). destruct (off <? 0); reflexivity.
+    - destruct (off <? 0); reflexivity. }
+  destruct Hmode as [[-> ->]|[-> ->]].
+  - cbn [nthZ nth] in H. change (negb (0 =? 0) && (0 =? 42)) with false in H. cbn [andb orb negb] in H.
+    change (negb (0 =? 0)) with false in H. cbv iota in H.
+    unfold fits, pp_d2 in H. cbn [app length] in H.
+    change (Z.of_nat 5 <=? scratch_size) with true in H. cbv iota in H. apply pp_OK_inj in H; subst bs.
+    rewrite <- !app_comm_cons, app_nil_l. unfold fmt_parse_offset. rewrite Es. unfold parse_int32.
+    change (rng src_parse_off_hh 0) with 0. change (rng src_parse_off_hh 1) with 23.
+    change (rng src_parse_off_mm 0) with 0. change (rng src_parse_off_mm 1) with 59.
+    rewrite pp_parse_fmt02 by (unfold min32; lia). rewrite consumed2_cons.
+    change (negb (0 =? 0)) with false. cbn [andb]. cbv iota.
+    rewrite pp_parse_fmt02 by (unfold min32; lia). rewrite consumed2_cons.
+    rewrite Hnone by (destruct k; reflexivity).
+    rewrite Hsum, Eres. reflexivity.
+  - cbn [nthZ nth] in H. change (negb (58 =? 0) && (0 =? 42)) with false in H. cbn [andb orb negb] in H.
+    change (negb (58 =? 0)) with true in H. cbv iota in H.
+    unfold fits, pp_d2 in H. cbn [app length] in H.
+    change (Z.of_nat 6 <=? scratch_size) with true in H. cbv iota in H. apply pp_OK_inj in H; subst bs.
+    rewrite <- !app_comm_cons, app_nil_l. unfold fmt_parse_offset. rewrite Es. unfold parse_int32.
+    change (rng src_parse_off_hh 0) with 0. change (rng src_parse_off_hh 1) with 23.
+    change (rng src_parse_off_mm 0) with 0. change (rng src_parse_off_mm 1) with 59.
+    rewrite pp_parse_fmt02 by (unfold min32; lia). rewrite consumed2_cons.
+    change (negb (58 =? 0) && (58 =? 58)) with true. cbv iota.
+    rewrite pp_parse_fmt02 by (unfold min32; lia). rewrite consumed2_cons.
+    rewrite Hnone.
+    + rewrite Hsum, Eres. reflexivity.
+    + destruct k as [|c r]; [reflexivity|]. cbn in Hk. destruct Hk as [_ [Hk|Hk]]; [discriminate|].
+      replace (c =? 58) with false by lia. reflexivity.
+Qed.
+
+(* ------------------------------------------------------------------ *)
+(* sub-seconds                                                         *)
+
+Lemma pp_dec_digits_fuel fuel : forall v acc, 0 <= v < 10 ^ Z.of_nat fuel ->
+  exists ds0, dec_digits_fuel fuel v acc = ds0 ++ acc /\ forallb is_digit ds0 = true /\ digits_val ds0 = v /\
+    (forall n, 1 <= n -> v < 10 ^ n -> Z.of_nat (length ds0) <= n).
+Proof.
+  induction fuel as [|f IH]; intros v acc Hv.
+  - change (10 ^ Z.of_nat 0) with 1 in Hv. exists []. cbn. repeat split; lia.
+  - rewrite Nat2Z.inj_succ, Z.pow_succ_r in Hv by lia.
+    cbn [dec_digits_fuel]. destruct (v / 10 =? 0) eqn:E.
+    + exists [48 + v mod 10]. cbn [app forallb length]. rewrite is_digit_48 by lia.
+      rewrite dv_cons, dv_nil. cbn [length]. repeat split; try lia.
+    + destruct (IH (v / 10) ((48 + v mod 10) :: acc) ltac:(lia)) as (ds1 & -> & Hd & Hdv & Hlen).
+      exists (ds1 ++ [48 + v mod 10]). rewrite <- app_assoc. split; [reflexivity|].
+      rewrite forallb_app, Hd. cbn [forallb]. rewrite is_digit_48 by lia.
+      split; [reflexivity|]. split; [rewrite dv_snoc, Hdv; lia|].
+      intros n Hn Hvn. rewrite app_length. cbn [length].
+      assert (n <> 1) by (intros ->; change (10 ^ 1) with 10 in Hvn; lia).
+      replace n with (Z.succ (n - 1)) in Hvn by lia. rewrite Z.pow_succ_r in Hvn by lia.
+      specialize (Hlen (n - 1) ltac:(lia) ltac:(lia)). lia.
+Qed.
+
+Lemma pp_forallb_repeat n : forallb is_digit (repeat 48 n) = true.
+Proof. induction n; cbn [repeat forallb]; [reflexivity|]. rewrite IHn. reflexivity. Qed.
+
+Lemma pp_dv_repeat n : digits_val (repeat 48 n) = 0.
+Proof. induction n; cbn [repeat]; [reflexivity|]. rewrite dv_cons, IHn. lia. Qed.
+
+Lemma pp_pad15 fs : 0 <= fs < 10 ^ 15 ->
+  length (pad_left 15 48 (dec_digits fs)) = 15%nat /\
+  forallb is_digit (pad_left 15 48 (dec_digits fs)) = true /\
+  digits_val (pad_left 15 48 (dec_digits fs)) = fs.
+Proof.
+  intros H. unfold dec_digits.
+  assert (H40 : 10 ^ 15 < 10 ^ Z.of_nat 40) by (vm_compute; reflexivity).
+  destruct (pp_dec_digits_fuel 40 fs [] ltac:(lia)) as (ds & -> & Hd & Hdv & Hlen).
+  rewrite app_nil_r. specialize (Hlen 15 ltac:(lia) ltac:(lia)).
+  unfold pad_left. rewrite app_length, repeat_length, forallb_app, pp_forallb_repeat, Hd, dv_app, pp_dv_repeat.
+  repeat split; lia.
+Qed.
+
+Lemma pp_subsec_loop : forall ds k v exp n, forallb is_digit ds = true -> no_digit_head' k ->
+  exp + Z.of_nat (length ds) <= 15 ->
+  subsec_loop (ds ++ k) v exp n =
+    (v * 10 ^ Z.of_nat (length ds) + digits_val ds, exp + Z.of_nat (length ds), k, (n + length ds)%nat).
+Proof.
+  induction ds as [|c ds IH]; intros k v exp n Hd Hk He.
+  - cbn [app length]. rewrite dv_nil, Nat.add_0_r.
+    replace (v * 10 ^ Z.of_nat 0 + 0) with v by (cbn; lia). replace (exp + Z.of_nat 0) with exp by lia.
+    destruct k as [|c k]; [reflexivity|]. cbn [subsec_loop]. cbn in Hk. rewrite Hk. reflexivity.
+  - cbn [forallb] in Hd. apply andb_true_iff in Hd. destruct Hd as [Hc Hd].
+    cbn [app subsec_loop]. rewrite Hc. cbn [length] in *. rewrite Nat2Z.inj_succ in *.
+    replace (exp <? 15) with true by lia. rewrite IH by (auto; lia).
+    rewrite dv_cons, Z.pow_succ_r by lia.
+    match goal with |- (?a, ?b, _, ?c) = (?a', ?b', _, ?c') =>
+      replace a with a' by lia; replace b with b' by lia; replace c with c' by lia; reflexivity end.
+Qed.
+
+Lemma strip_unf c t : strip_zeros_r (c :: t) = if c =? 48 then strip_zeros_r t else c :: t.
+Proof.
+  destruct (Z.eqb_spec c 48) as [->|Hn]; [reflexivity|].
+  cbn [strip_zeros_r]. walk_Z c; try reflexivity. congruence.
+Qed.
+
+Lemma pp_strip_r r : exists j, r = repeat 48 j ++ strip_zeros_r r.
+Proof.
+  induction r as [|c t IH]; [exists 0%nat; reflexivity|].
+  rewrite strip_unf. destruct (Z.eqb_spec c 48) as [->|Hn].
+  - destruct IH as [j Hj]. exists (S j). cbn [repeat app]. f_equal. exact Hj.
+  - exists 0%nat. reflexivity.
+Qed.
+
+Lemma pp_rev_repeat (x : Z) n : rev (repeat x n) = repeat x n.
+Proof.
+  induction n; [reflexivity|]. cbn [repeat rev]. rewrite IHn. symmetry. apply repeat_cons.
+Qed.
+
+Lemma pp_strip l : exists j, l = rev (strip_zeros_r (rev l)) ++ repeat 48 j.
+Proof.
+  destruct (pp_strip_r (rev l)) as [j Hj]. exists j.
+  rewrite <- (rev_involutive l) at 1. rewrite Hj at 1. rewrite rev_app_distr, pp_rev_repeat. reflexivity.
+Qed.
+
+Theorem subsec_roundtrip_lemma : forall fs k, 0 <= fs < 10 ^ 15 -> no_digit_head' k ->
+  parse_subseconds (frac_digits fs 15 ++ k) = OK (Some (fs, k)) /\
+  (fs <> 0 -> parse_subseconds (frac_min fs ++ k) = OK (Some (fs, k))).
+Proof.
+  intros fs k Hfs Hk. destruct (pp_pad15 fs Hfs) as (Hlen & Hd & Hdv).
+  assert (Hfs' : 0 <= fs < 1000000000000000) by (change (10 ^ 15) with 1000000000000000 in Hfs; exact Hfs).
+  split.
+  - unfold frac_digits. change (18 <? 15) with false. cbv iota. change (15 <=? 15) with true. cbv iota.
+    change (Z.to_nat 15) with 15%nat. change (10 ^ (15 - 15)) with 1. rewrite Z.div_1_r.
+    set (P := pad_left 15 48 (dec_digits fs)) in *. clearbody P.
+    unfold parse_subseconds. rewrite pp_subsec_loop by (auto; lia).
+    rewrite Hlen, Hdv. change (Nat.eqb (0 + 15) 0) with false. cbv iota.
+    change (15 - (0 + Z.of_nat 15)) with 0. rewrite pp_kExp10 by lia. cbn [bind].
+    unfold mul64. rewrite chk64_in by (unfold int64, min64, max64; lia). cbn [bind].
+    do 3 f_equal. lia.
+  - intros Hnz. unfold frac_min.
+    set (P := pad_left 15 48 (dec_digits fs)) in *. clearbody P.
+    destruct (pp_strip P) as [j Hj].
+    set (Q := rev (strip_zeros_r (rev P))) in *. clearbody Q. subst P.
+    rewrite app_length, repeat_length in Hlen.
+    rewrite forallb_app, pp_forallb_repeat, andb_true_r in Hd.
+    rewrite dv_app, pp_dv_repeat, repeat_length in Hdv.
+    assert (HQ : Q <> []).
+    { intros ->. rewrite dv_nil in Hdv. lia. }
+    unfold parse_subseconds. rewrite pp_subsec_loop by (auto; lia).
+    destruct Q as [|c Q]; [congruence|]. cbn [length Nat.add Nat.eqb] in *.
+    replace (15 - (0 + Z.of_nat (S (length Q)))) with (Z.of_nat j) by lia.
+    rewrite pp_kExp10 by lia. cbn [bind].
+    unfold mul64. rewrite chk64_in by (unfold int64, min64, max64; lia). cbn [bind].
+    do 3 f_equal. lia.
+Qed.
+
+(* Status: every requested lemma is proved (no Admitted / admit / Axiom):
+   C07: parseint_format64_lemma, parseint_format02d_lemma,
+        parseoffset_formatoffset_full_lemma, parseoffset_formatoffset_minutes_lemma,
+        subsec_roundtrip_lemma.
+   C09: parse_int_sound_lemma, scan_range_lemma, scan_safe_lemma.
+   Unproved items: none. *)
